@@ -55,3 +55,35 @@ type Acct struct {
 	Balance float64
 	Note    *string `gorm:"size:100"`
 }
+
+// ---- growing family: relations are ADDED in version 2 (engine/c20/grow.go) ----
+// Version 1: books reference shelves; authors, publishers and tags (when they exist at
+// all in version 1) are unrelated tables.
+
+type Shelf struct {
+	ID   int64  `gorm:"primaryKey"`
+	Name string `gorm:"size:30"`
+}
+
+type Publisher struct {
+	ID   int64  `gorm:"primaryKey"`
+	Name string `gorm:"size:50;uniqueIndex:ux_publishers_name"`
+}
+
+type Author struct {
+	ID   uint
+	Name string `gorm:"index"`
+}
+
+type Tag struct {
+	Code  string `gorm:"primaryKey;size:8"`
+	Label string
+}
+
+type Book struct {
+	ID      uint
+	Title   string `gorm:"size:64;not null"`
+	Pages   int    `gorm:"default:0"`
+	ShelfID *int64
+	Shelf   *Shelf
+}
